@@ -32,10 +32,14 @@ Definition maybe_int10_char (c:ascii) : bool :=
   is_digit c || (n =? 43)%N || (n =? 45)%N || (n =? 32)%N || ((9 <=? n)%N && (n <=? 13)%N) || (128 <=? n)%N.
 Fixpoint all_chars (f:ascii -> bool) (s:string) : bool :=
   match s with EmptyString => true | String c r => f c && all_chars f r end.
+(* CPython >= 3.11 refuses to convert digit strings longer than sys.int_max_str_digits (default 4300): ValueError *)
+Definition int_max_str_digits : nat := 4300.
 Definition py_int (s:string) : int_res :=
   match s with
   | EmptyString => PValueError
-  | _ => if all_chars is_digit s then match N_of_str s with Some n => PVal n | None => PUnmodelled end
+  | _ => if all_chars is_digit s then
+           (if Nat.ltb int_max_str_digits (String.length s) then PValueError
+            else match N_of_str s with Some n => PVal n | None => PUnmodelled end)
          else if all_chars maybe_int10_char s then PUnmodelled else PValueError
   end.
 
